@@ -2,7 +2,7 @@ SPECIFICATION Spec
 CONSTANTS
   EffTokens = {"pa", "pae", "sp", "in", "pn", "w", "pab", "pcr", "pcrb"}
   MaxEff = 2
-  Modes = {"normal", "exc"}
+  Modes = {"normal", "exc", "closeOut"}
   FnModes = {"normal"}
   MaxFns = 0
   Depth = 3
